@@ -90,7 +90,7 @@ def run(chk: Check) -> None:
     if made:
         kws = {k.arg: norm(k.value) for k in made[0].keywords if k.arg}
         for prop_ in ('valid_type', 'validator', 'dynamic'):
-            chk.ob('PROV-dynamic-subnamespace', gp, kws.get(prop_) == f'self.{prop_}', f'the namespace created on the fly inherits {prop_} from the dynamic namespace it is created in '
+            chk.ob('PROV-dynamic-subnamespace', gp, kws.get(prop_) in (f'self.{prop_}', f'self._{prop_}'), f'the namespace created on the fly inherits {prop_} from the dynamic namespace it is created in '
                    f'(got {kws.get(prop_)!r})', node=made[0], kind=f'inherits:{prop_}')
         ok = all(('T', 'create_dynamically') in fs and ('T', 'self.dynamic') in {(a[0], a[1]) for a in fs if len(a) == 2} or
                  (('T', 'create_dynamically') in fs and any(a[0] == 'T' and 'dynamic' in str(a[1]) for a in fs)) for _, fs in gf.site_facts(made[0]))
@@ -112,7 +112,7 @@ def run(chk: Check) -> None:
         chk.ob('OWN-outputs', f, ok, 'the outputs mapping is replaced only at construction / load', node=node, kind='replacer', expr='_outputs store')
     proc = prog.cls('processes.Process')
     for c in [proc] + prog.subclasses(proc):
-        for f in c.vmethods.values():
+        for f in c.emethods.values():
             if f is out:
                 continue
             for n in ast.walk(f.node):
